@@ -21,6 +21,40 @@ fn emit_history(out: &mut impl Write, prefix: &str, lang: &str, parser: &mut Par
         let new = te.apply(&cur);
         let ie = te.input_edit(&cur, &new);
         let before = dump_tree(&tree);
+        // stand-alone helpers (ts_node_edit, ts_point_edit, ts_range_edit) on the same edit
+        let mut helper_lines: Vec<String> = Vec::new();
+        {
+            let mut cursor = tree.walk();
+            let mut seen = 0;
+            'walk: loop {
+                let node = cursor.node();
+                if seen < 48 {
+                    let mut n2 = node;
+                    n2.edit(&ie);
+                    helper_lines.push(format!("hn {} {} {} {} {} {}", node.start_byte(), node.start_position().row, node.start_position().column,
+                        n2.start_byte(), n2.start_position().row, n2.start_position().column));
+                    let mut r = node.range();
+                    ie.edit_range(&mut r);
+                    helper_lines.push(format!("hr {} {} {} {} {} {} {} {} {} {} {} {}", node.start_byte(), node.end_byte(),
+                        node.start_position().row, node.start_position().column, node.end_position().row, node.end_position().column,
+                        r.start_byte, r.end_byte, r.start_point.row, r.start_point.column, r.end_point.row, r.end_point.column));
+                    seen += 1;
+                }
+                if cursor.goto_first_child() { continue; }
+                loop {
+                    if cursor.goto_next_sibling() { break; }
+                    if !cursor.goto_parent() { break 'walk; }
+                }
+            }
+            for k in 0..6 {
+                let b = (cur.len() * k) / 5;
+                let mut p = point_at(&cur, b);
+                let mut bb = b;
+                ie.edit_point(&mut p, &mut bb);
+                let p0 = point_at(&cur, b);
+                helper_lines.push(format!("hp {} {} {} {} {} {}", b, p0.row, p0.column, bb, p.row, p.column));
+            }
+        }
         tree.edit(&ie);
         let after = dump_tree(&tree);
         let cid = format!("{prefix}.{k}");
@@ -31,6 +65,9 @@ fn emit_history(out: &mut impl Write, prefix: &str, lang: &str, parser: &mut Par
         writeln!(out, "edit {}", fmt_edit(&ie)).unwrap();
         writeln!(out, "before\n{before}").unwrap();
         writeln!(out, "after\n{after}").unwrap();
+        for h in &helper_lines {
+            writeln!(out, "{h}").unwrap();
+        }
         writeln!(out, "run").unwrap();
         cur = new;
         n += 1;
@@ -128,6 +165,46 @@ fn main() {
                     let e2 = random_edit(&mut rng, &t1, &bounds, &alpha_refs);
                     hist_no += 1;
                     case_no += emit_history(&mut out, &format!("{id}-{hist_no}"), &id, &mut parser, &text, &[e1, e2]);
+                }
+            }
+            // family: trees parsed with included ranges (stored ranges must move with ts_range_edit,
+            // incl. ranges ending at UINT32_MAX and edits inside / between / before ranges)
+            if bounds.len() >= 4 && d % 3 == 1 {
+                for _ in 0..2 {
+                    let mut cuts: Vec<usize> = (0..4).map(|_| *rng.pick(&bounds)).collect();
+                    cuts.sort();
+                    cuts.dedup();
+                    let mut ranges = Vec::new();
+                    let mut k = 0;
+                    while k + 1 < cuts.len() {
+                        let (a, b) = (cuts[k].min(text.len()), cuts[k + 1].min(text.len()));
+                        if a < b {
+                            ranges.push(tree_sitter::Range { start_byte: a, end_byte: b, start_point: point_at(&text, a), end_point: point_at(&text, b) });
+                        }
+                        k += 2;
+                    }
+                    if rng.chance(1, 3) {
+                        if let Some(last) = ranges.last_mut() {
+                            last.end_byte = u32::MAX as usize;
+                            last.end_point = tree_sitter::Point { row: u32::MAX as usize, column: u32::MAX as usize };
+                        }
+                    }
+                    if ranges.is_empty() || parser.set_included_ranges(&ranges).is_err() {
+                        continue;
+                    }
+                    let steps = rng.range(1, 3);
+                    let mut cur = text.clone();
+                    let mut edits = Vec::new();
+                    for _ in 0..steps {
+                        let te = random_edit(&mut rng, &cur, &bounds, &alpha_refs);
+                        cur = te.apply(&cur);
+                        edits.push(te);
+                    }
+                    hist_no += 1;
+                    // note: histories with ranges are not replayable through --spec (ranges are not part of the spec);
+                    // they are marked with an `R` prefix
+                    case_no += emit_history(&mut out, &format!("{id}-R{hist_no}"), &id, &mut parser, &text, &edits);
+                    parser.set_included_ranges(&[]).unwrap();
                 }
             }
             for _h in 0..hist_per_doc {
